@@ -138,6 +138,39 @@ def generic(ctx, fb, where, m, rank, xs, c, row_rule):
                     'len(x)=%d/n=%d' % (m, nn), 'row', [nn], nn)
 
 
+def call_sequences(ctx, fb):
+    """The wrappers in one process, one after the other on the same nodes: the whole table first, then single rows in
+    descending and in scrambled order of n - each answer is the row that was asked for, whatever was computed before."""
+    rep = ctx.rep
+    where_fw = fb.where(ctx.repo.func('fornberg', 'fd_weights'))
+    for m in (3, 4):
+        xs = [Poly.sym('x%d' % k) for k in range(m)]
+        c = Poly.sym('c')
+        label = 'len(x)=%d: fd_weights_all(n=%d), then fd_weights for n = %s' % (m, m - 1, list(range(m - 1, -1, -1)) + [1, m - 1, 0])
+        try:
+            models = Models()
+            I = Interp(ctx.repo, models)
+            models.bind(I)
+            ndarr.ORDER_RANK.clear()
+            ndarr.ORDER_RANK.update({'x%d' % k: k for k in range(m)})
+            problems = []
+            try:
+                with budget(60, 'fd_weights call sequence m=%d' % m):
+                    I.get_global('fornberg', 'fd_weights_all')(Arr((m,), list(xs)), c, m - 1)
+                    for nn in list(range(m - 1, -1, -1)) + [1, m - 1, 0]:
+                        row = I.get_global('fornberg', 'fd_weights')(Arr((m,), list(xs)), c, nn)
+                        problems += ['n=%d: %s' % (nn, p) for p in judge(rep, row, xs, c, nn, m, where_fw, label, 'R-ROW', [nn])]
+            finally:
+                ndarr.ORDER_RANK.clear()
+            rep.check(not problems, 'R-ROW', 'fornberg.fd_weights', where_fw, {'nodes': m, 'mismatches': problems[:3]},
+                      'each call returns the row it was asked for', label, key='row sequence')
+        except InterpRaise as exc:
+            rep.violation('R-ROW', 'fornberg.fd_weights', where_fw, {'raises': exc.exc_name, 'message': exc.msg[:100]},
+                          'weights for distinct nodes', label, key='raises')
+        except AnalysisError as exc:
+            rep.undecided('R-ROW', 'fornberg.fd_weights', exc, label)
+
+
 def uniform(ctx, fb, where, n, m, offs, tag):
     rep = ctx.rep
     S, C = Poly.sym('s'), Poly.sym('c')
@@ -198,4 +231,5 @@ def run(ctx):
         for offs, tag in ((list(range(-half, m - half)), 'centred'), (list(range(0, m)), 'one-sided'),
                           (list(range(m - half - 1, -half - 1, -1)), 'centred, descending')):
             uniform(ctx, fb, where, n, m, offs, tag)
+    call_sequences(ctx, fb)
     rep.notes['trusted_base'] = ['python ast', 'ndverif abstract interpreter and exact rational-function algebra']
